@@ -531,9 +531,12 @@ def enumFrom {α} : Nat → List α → List (Nat × α)
   | _, [] => []
   | k, x :: xs => (k, x) :: enumFrom (k + 1) xs
 
-/-- circuit.py:313-318: the non-zero entries of `init_and_discard().eval()`, real parts. -/
+/-- circuit.py:313-318: the non-zero entries of `init_and_discard().eval(mixed=True)`, real parts —
+    with the repair of finding F5k: the unrepaired code calls `eval()`, which contracts a circuit
+    that is not mixed (bits only on its output and no mixed box, e.g. `Bits(0) @ scalar(-1)`) as a
+    plain tensor, so that amplitudes (not their squared magnitudes) are returned as counts. -/
 def Circuit.getCounts (c : Circuit D8) : Except Err (List (Nat × D8)) :=
-  match c.initAndDiscard.eval false with
+  match c.initAndDiscard.eval true with
   | .ok v => .ok (((enumFrom 0 v.entries).filter fun p => p.2 != 0).map fun p => (p.1, p.2.re))
   | .error e => .error e
 
